@@ -133,7 +133,8 @@ def op_queries(pat, cap, pat2, cap2, args, ops=None, **kw):
     for op in (ops or OPS):
         if op in ARGOPS:
             for a in args: qs.append(tq(op, pat, cap, ARG=a, **kw))
-        elif op in TWO: qs.append(tq(op, pat, cap, pat2, cap2, **kw))
+        elif op in TWO:      # two tables: the observer groups go into two queries (one combined query swings between 25 s and > 400 s)
+            for o in (3, 12): qs.append(tq(op, pat, cap, pat2, cap2, OBS=o, **kw))
         else: qs.append(tq(op, pat, cap, **kw))
     return qs
 
@@ -161,7 +162,7 @@ def queries(tier):
         for pat in ('', 'G', 'GG', 'GGG'): qs += op_queries(pat, 0, 'G', 0, (0, 2), timeout=600)
         k4 = ('NONE', 'INSERT', 'GET', 'REMOVE', 'REMOVE_INDEX', 'RENAME', 'MERGE_COPY', 'MERGE_MOVE', 'RESIZE', 'EXPECT', 'COMPRESS', 'CLEAR',
               'COPY_CTOR', 'MOVE_ASSIGN')
-        qs += op_queries('GGGG', 4, 'GG', 2, (2,), [o for o in k4 if o != 'MERGE_COPY'], timeout=900)   # MERGE_COPY: no verdict in 900 s       # full table of 4: the operation's insert expands to 8
+        qs += op_queries('GGGG', 4, 'GG', 2, (2,), k4, timeout=900)       # full table of 4: the operation's insert expands to 8
         qs += op_queries('GGRG', 8, 'GGR', 4, (5,), k4, timeout=900)      # capacity 8 with a tombstone
         for pat in ('GGR', 'GRG', 'GGG'):
             for op, a in POST_OPS:
